@@ -1,4 +1,5 @@
 """Which tasks decide which property, and how verdicts are reported."""
+import json
 import os
 import time
 
@@ -321,15 +322,42 @@ prop('C01', 'Minified module behaves exactly like the original (safe options)', 
                  'behaviour oracle of the bounded sweep (run original and minified program) stands behind the axioms.')
 
 
+BASELINE_FILE = os.path.join(os.path.dirname(os.path.abspath(__file__)), 'obligation_baseline.json')
+
+
+def obligation_baseline():
+    if os.path.exists(BASELINE_FILE):
+        with open(BASELINE_FILE) as f:
+            return json.load(f)
+    return {}
+
+
 def run_property(pid, tier):
     p = PROPS[pid]
     t0 = time.time()
     tasks = p['tasks'](tier)
     results = runner.run_tasks(tasks)
     sel = tuple(p['select'])
+    names = set()
     for r in results:
         if 'obligations' in r:
-            r['obligations'] = [o for o in r['obligations'] if o['name'].startswith(sel)]
+            # an exploration that stopped early (engine / vacuous cover) in ANY task of the property is kept: obligations may be missing because of it
+            r['obligations'] = [o for o in r['obligations'] if o['name'].startswith(sel) or
+                                (o['status'] == 'undecided' and (o.get('kind') in ('engine', 'cover') or o['name'].endswith(('/engine', '/cover'))))]
+            names.update(o['name'] for o in r['obligations'])
+    # vacuity guard: every obligation generated on the reference tree must be generated again (a missing one is undecided, never a pass)
+    if os.environ.get('PYVC_WRITE_BASELINE') == '1' and tier == 'quick' and not os.environ.get('VERIF_REPO'):
+        b = obligation_baseline()
+        b[pid] = sorted(n for n in names if '/engine' not in n and '/vacuity/' not in n)
+        with open(BASELINE_FILE, 'w') as f:
+            json.dump(b, f, indent=0, sort_keys=True)
+    base = obligation_baseline().get(pid)
+    if base and not any('crash' in r for r in results):
+        missing = sorted(set(base) - names)
+        if missing:
+            results.append({'task': 'vacuity', 'wall_s': 0, 'functions': [], 'assumptions': [], 'notes': [], 'pruned': [], 'samples': [], 'standins': [], 'obligations': [
+                {'name': '%s/vacuity/obligation-no-longer-generated' % pid, 'status': 'undecided', 'kind': 'cover', 'model': {}, 'time_s': 0, 'backend': 'engine',
+                 'path': None, 'goal': None, 'detail': '%d obligations of the committed baseline were not generated, e.g. %s' % (len(missing), missing[:5])}]})
     replay_fn = None
     if p['replay']:
         import importlib
